@@ -7,7 +7,7 @@ import ast
 
 from ..cfg import CFG, cond_strings
 from ..tutil import dict_from_zip, lin, map_term, np_call
-from ..core import AnalysisError, const_value, walk_own
+from ..core import callee_is, AnalysisError, const_value, walk_own
 from ..defuse import DefUse, Terms, show, walk_term
 from ..effects import WriterEvents
 from ..astutil import cond_terms, live, norm_cmp
@@ -501,7 +501,7 @@ def _buffered(ctx):
         return [t]
 
     cat = [aT.of(n) for n in ast.walk(ap.node) if isinstance(n, ast.Call)
-           and ast.unparse(n.func) in ("pd.concat", "pandas.concat")]
+           and callee_is(prog, ap, n, "pd.concat", "pandas.concat")]
     ok_c = len(cat) == 1 and cat[0][2][:1] == (("list", (BUF, DATA)),) and \
         dict(cat[0][3]).get("ignore_index") == ("const", True) and \
         dict(cat[0][3]).get("axis", ("const", 0)) == ("const", 0)
@@ -512,7 +512,7 @@ def _buffered(ctx):
             x in (DATA, ("list", (DATA,))) for x in leaves(aT.of(
                 aug[0].value)))
     npa = [aT.of(n) for n in ast.walk(ap.node) if isinstance(n, ast.Call)
-           and ast.unparse(n.func) in ("np.append", "numpy.append")]
+           and callee_is(prog, ap, n, "np.append", "numpy.append")]
     def buf_or_fresh(t):
         return all(x == BUF or (np_call(x) or ("",))[0] in (
             "recarray", "empty", "zeros") for x in leaves(t))
